@@ -430,7 +430,9 @@ def run_job(job, root, tmp):
                 res["failed"].append(ent)
             elif r["status"] != "SUCCESS":
                 res.setdefault("unknown", []).append(ent)
-        if res.get("unwind_failed"):
+        # a failed unwinding assertion makes the SUCCESSES of this run unsound (paths beyond the bound
+        # were cut), not its failures: a counterexample found inside the bound is a real one
+        if res.get("unwind_failed") and not res["failed"]:
             raise Undecided("unwinding assertion failed (bound too small for this input space or loop renumbered): %s %s"
                             % (res["unwind_failed"][0]["id"], res["unwind_failed"][0]["loc"]))
         if res.get("unknown") and not res["failed"]:
